@@ -15,6 +15,7 @@ type GenOpts struct {
 	PResultKey, PResultGroup, PResultIface      int
 	PBuiltinDep, PGroupDep, POptionalMissing    int
 	POptionalReg                                int // parameter-object field on a registered service tagged optional
+	PAliasSkew                                  int // a registration with two As + Group is preceded by one more member of the first interface's group only (ordinals differ)
 	PEmbedType                                  int // an output uses a method-less type (embeddable in parameter objects)
 	PIgnored                                    int
 	MaxDeps                                     int
@@ -376,6 +377,30 @@ func (g *gen) genConfig() *Config {
 		}
 		if staticKindApplicable(r) && g.p(StCfg, o.PStaticKind) {
 			r.FuncKind = 1 + g.n(StCfg, 2)
+		}
+		if len(r.As) == 2 && r.Group != "" && g.p(StCfg, o.PAliasSkew) {
+			// one more member in the group of the first interface only: the two
+			// interfaces' group positions of r differ
+			ct := TypeRef(g.n(StCfg, NT-2))
+			if g.p(StCfg, 500) {
+				ct = TypeRef(NT + g.n(StCfg, ND))
+			}
+			pre := &Reg{ID: len(c.Regs), Life: r.Life, Form: FSingle, Outs: []Out{{T: ct, Concrete: ct}}, As: []int{r.As[0]}, Group: r.Group}
+			c.Regs = append(c.Regs, pre)
+			gid := Ident{T: ifaceRef(r.As[0]), Group: r.Group}
+			found := false
+			for k := range idents {
+				if idents[k].group && idents[k].id == gid {
+					found = true
+					if pre.Life == LScoped {
+						idents[k].life = LScoped
+					}
+				}
+			}
+			if !found {
+				idents = append(idents, avail{id: gid, reg: pre.ID, life: pre.Life, group: true})
+			}
+			r.ID = len(c.Regs)
 		}
 		c.Regs = append(c.Regs, r)
 		for _, p := range regIdents(r) {
